@@ -11,6 +11,7 @@ postconditions.  `case.run(H)` is written once and executed in two modes:
                       *real function object* is called natively and `H.check`
                       evaluates the same clause on concrete values (replay).
 """
+import re
 import multiprocessing
 import os
 import signal
@@ -35,6 +36,10 @@ class Outcome(object):
 
     def __repr__(self):
         return "Outcome(value=%r, exc=%r)" % (self.value, self.exc)
+
+
+_ENGINE_NAMES = re.compile(r"'(Sym|SymList|Rope|SymRange|SymZip|SymSlice|AbstractSeq|OpaqueDict|SpecialMethod|SymMethod|ItemProxy|RecProxy|"
+                           r"GhostBlocks|Frame|Interp)'")
 
 
 class SymH(object):
@@ -75,6 +80,10 @@ class SymH(object):
         except (sym.EngineError, interp._Flow):
             raise
         except BaseException as e:
+            if isinstance(e, (TypeError, AttributeError)) and _ENGINE_NAMES.search(str(e)):
+                # Python complaining about one of the engine's own value classes: an unsupported operation of the
+                # interpreter, not an exception of the program under analysis
+                raise sym.Unsupported("engine value in a native operation: %s" % e)
             return Outcome(exc=e)
 
     def check(self, clause, claim, alts=(), info=None):
